@@ -161,6 +161,31 @@ class TrajModel:
         return self.t is None or bool(np.all(np.diff(self.t) > 0))
 
 
+def ref_umeyama(x, y, with_scale):
+    """
+    Independent least-squares similarity y ~ s*R*x + t (Umeyama 1991) for
+    nx3 point arrays; returns (R, t, s, conditioning) where conditioning is
+    the ratio of the smallest to the largest singular value of the covariance
+    (the solution is only unique when that is well above rounding noise).
+    """
+    x = np.asarray(x, dtype=np.float64)
+    y = np.asarray(y, dtype=np.float64)
+    n = x.shape[0]
+    mx, my = x.mean(axis=0), y.mean(axis=0)
+    xc, yc = x - mx, y - my
+    cov = yc.T @ xc / n
+    U, d, Vt = np.linalg.svd(cov)
+    S = np.eye(3)
+    if np.linalg.det(U) * np.linalg.det(Vt) < 0:
+        S[2, 2] = -1
+    R = U @ S @ Vt
+    var_x = (xc**2).sum() / n
+    s = float(np.trace(np.diag(d) @ S) / var_x) if with_scale else 1.0
+    t = my - s * (R @ mx)
+    cond = float(d[2] / d[0]) if d[0] > 0 else 0.0
+    return R, t, s, cond
+
+
 def random_unit_quat(rng, mode="uniform"):
     """seeded quaternion; modes: uniform, near identity, near pi"""
     import math
